@@ -407,11 +407,22 @@ Proof.
   destruct o; [reflexivity|apply IH; try assumption; lia|apply IH; try assumption; lia].
 Qed.
 
+Lemma drainf_Inv : forall res fuel nf now pref s, Inv s -> 0 <= now ->
+  Inv (fst (drainf res fuel nf now pref s)).
+Proof.
+  induction fuel as [|f IH]; intros nf now pref s HI Hnow; destruct nf as [|nf']; cbn [drainf]; try exact HI.
+  destruct (iter res (choose pref (q s)) now s) as [s' o] eqn:It.
+  assert (HI' : Inv s') by (replace s' with (fst (iter res (choose pref (q s)) now s)) by (rewrite It; reflexivity);
+                            apply Inv_iter; assumption).
+  destruct o; [exact HI'|apply IH; assumption|apply IH; assumption].
+Qed.
+
 Definition sop_wf (o : sop) : bool :=
   match o with
   | SSched _ ms => (0 <=? ms) && (ms <? 4294967296)
   | SAdv d => 0 <=? d
   | SClear => true
+  | SPark d _ => 0 <=? d
   end.
 
 Definition cfg_ok (c : state * Z * list Z * bool) : Prop :=
@@ -420,7 +431,7 @@ Definition cfg_ok (c : state * Z * list Z * bool) : Prop :=
 Lemma sstep_ok : forall res c o, cfg_ok c -> sop_wf o = true -> cfg_ok (sstep res c o).
 Proof.
   intros res [[[s now] pref] fin] o [HI [Hnow Hfin]] W. unfold sstep.
-  destruct o as [rep ms|d|]; cbn [sop_wf] in W.
+  destruct o as [rep ms|d| |d nf]; cbn [sop_wf] in W.
   - apply andb_prop in W. destruct W as [W1 W2]. apply Z.leb_le in W1.
     set (s1 := schedule now (Z.of_nat (next s)) rep ms s).
     assert (H1 : Inv s1) by (apply Inv_schedule; assumption).
@@ -445,6 +456,19 @@ Proof.
       apply drain_Inv; assumption.
     + rewrite Hfin. cbn. replace f2 with (snd (drain res (S (length (q s1))) now pref s1)) by (rewrite Dr; reflexivity).
       apply drain_fuel_enough; try assumption. pose proof (ripe_le_length now (q s1)). lia.
+  - apply Z.leb_le in W.
+    destruct (drainf res (S (length (q s))) nf (now + d) pref s) as [s' pref'] eqn:Df.
+    assert (H0 : Inv s').
+    { replace s' with (fst (drainf res (S (length (q s))) nf (now + d) pref s)) by (rewrite Df; reflexivity).
+      apply drainf_Inv; [assumption|lia]. }
+    set (s1 := clear (now + d) s').
+    assert (H1 : Inv s1) by (apply Inv_clear; assumption).
+    destruct (drain res (S (length (q s1))) (now + d) pref' s1) as [[s2 pref2] f2] eqn:Dr.
+    cbn [cfg_ok]. split; [|split; [lia|]].
+    + replace s2 with (fst (fst (drain res (S (length (q s1))) (now + d) pref' s1))) by (rewrite Dr; reflexivity).
+      apply drain_Inv; [assumption|lia].
+    + rewrite Hfin. cbn. replace f2 with (snd (drain res (S (length (q s1))) (now + d) pref' s1)) by (rewrite Dr; reflexivity).
+      apply drain_fuel_enough; try assumption; [lia|]. pose proof (ripe_le_length (now + d) (q s1)). lia.
 Qed.
 
 Lemma run_script_ok : forall res sc c, cfg_ok c -> forallb sop_wf sc = true ->
